@@ -128,6 +128,29 @@ def rule_D32(lines, log):
             log.append({"rule": "D32", "before": l.strip()[:80], "after": "let " + l.strip()[:76]})
 
 
+def rule_D34(lines, log):
+    """`recv.is_some_and(|x| body)` / `recv.is_ok_and(|x| body)` (closure-taking Option/Result adapters the verifier has no
+    specification for) => `(match recv { Some(x) => body, None => false })` / `(match recv { Ok(x) => body, Err(_) => false })`
+    — the std definition of the adapter, spelled out. Only simple receivers (a path / field / method chain on one line)."""
+    pat = re.compile(r"((?:&\s*)?[A-Za-z_]\w*(?:\.[A-Za-z_]\w*(?:\(\))?)*)\.(is_some_and|is_ok_and)\(\s*\|(\w+)\|\s*")
+    while True:
+        t = lines.text()
+        m = rustscan.mask(t)
+        mm = pat.search(m)
+        if not mm:
+            break
+        open_paren = m.index("(", mm.end(2))
+        close = rustscan.match_close(m, open_paren)
+        body = t[mm.end():close].strip()
+        recv, which, var = t[mm.start(1):mm.end(1)], mm.group(2), mm.group(3)
+        if which == "is_some_and":
+            new = "(match %s { Some(%s) => { %s } None => false })" % (recv, var, body)
+        else:
+            new = "(match %s { Ok(%s) => { %s } Err(_) => false })" % (recv, var, body)
+        log.append({"rule": "D34", "before": " ".join(t[mm.start():close + 1].split())[:160], "after": " ".join(new.split())[:160]})
+        lines.replace_span(mm.start(), close + 1, new)
+
+
 _ATTR_RE = re.compile(r"#\s*!?\s*\[")
 
 
@@ -458,6 +481,8 @@ class Assembler:
             rule_D3(body_lines, log)
         if "D32" not in norules:
             rule_D32(body_lines, log)
+        if "D34" not in norules:
+            rule_D34(body_lines, log)
         if "D33" not in norules and header is None and re.search(r"\(\s*mut self\b", sig_lines.text()) \
                 and not any(w in ("sub", "sigsub") and "mut self" in a.replace("\\", "") for (w, a, c) in blk.sections):
             # D33: a by-value `mut self` receiver (the verifier does not take it) => `self` moved into a mutable local
